@@ -783,6 +783,9 @@ func loadAddrManager(amBucket db.Bucket, pubPassphrase []byte, net *config.Param
 
 	// get child number
 	internalChildNum, externalChildNum, err := fetchChildNum(amBucket)
+	if err != nil {
+		return nil, err
+	}
 
 	branchInfo := &branchInfo{
 		internalBranchPub: internalBranchPub,
